@@ -97,6 +97,8 @@ type Machine struct {
 	// MaxJumps bounds the jumps along one path (looping programs are explored to a finite horizon).
 	MaxJumps   int
 	sinceYield int
+	// Diverged is set when the model ran into a jump cycle that never yields.
+	Diverged bool
 	unknown    bool // an unmodelled value flowed into the current evaluation
 }
 
@@ -266,13 +268,15 @@ func (m *Machine) exec(s *Stmt, k func() *Obs) *Obs {
 		if n == nil {
 			return m.errObs(k)
 		}
-		if m.Jumps >= m.MaxJumps {
-			// horizon reached: the path is cut here (reported as End by convention; drivers stop before)
+		if m.Jumps >= m.MaxJumps && m.sinceYield == 0 {
+			// horizon reached (only checked at the first jump after a yield, so that a chain of
+			// jumps that never yields is always followed until it is recognised as such below)
 			return &Obs{K: ODiverge, Node: m.Cur, next: func(int) *Obs { return m.end() }}
 		}
 		m.Jumps++
 		m.sinceYield++
 		if m.sinceYield > len(m.P.Nodes)+1 {
+			m.Diverged = true
 			return &Obs{K: ODiverge, Node: m.Cur, next: func(int) *Obs { return m.end() }}
 		}
 		if cur := m.P.FindNode(m.Cur); cur != nil && cur.Tracking != "never" {
